@@ -219,9 +219,15 @@ LEAF_PERSISTENT = ("v", "w", "xs", "back")
 LEAF_TRANSIENT = ("tmp",)
 
 
+EXTRA_PERSISTENT = {}       # class -> persistent trait names, registered by the other C14 families
+
+
 def persistent_names(node):
     if isinstance(node, Style):
         return STYLE_PERSISTENT
+    for cls, names in EXTRA_PERSISTENT.items():
+        if isinstance(node, cls):
+            return names
     return OBJ_PERSISTENT if isinstance(node, Obj) else LEAF_PERSISTENT if isinstance(node, Leaf) else ()
 
 
@@ -642,7 +648,8 @@ COPY_MODES = [
     ("clone-shallow", "clone-shallow", cp_clone_shallow), ("clone-deep", "clone-deep", cp_clone_deep),
 ]
 
-_MODE_DEFAULT = {"deepcopy": "deep", "clone-none": "ref", "clone-shallow": "shallow", "clone-deep": "deep"}
+_MODE_DEFAULT = {"deepcopy": "deep", "clone-none": "ref", "clone-shallow": "shallow", "clone-deep": "deep",
+                 "clone-all-deep": "deep", "clone-all-none": "ref"}
 
 
 def effective(mclass, meta):
